@@ -15,12 +15,14 @@ package template
 //@   requires[parsed-file] forall(k, 0, len(soyfile.Body), typeis(soyfile.Body[k], *ast.TemplateNode) ==> unbox(soyfile.Body[k], *ast.TemplateNode).Body != nil)
 //@   modifies *
 //@   ensures[keeps-registry-well-formed] registryOK(r)
+//@   at call store#16 assert[a-template's-namespace-is-the-declaration-of-its-own-file;C03] val != nil && exists(k, 0, len(soyfile.Body), typeis(soyfile.Body[k], *ast.NamespaceNode) && unbox(soyfile.Body[k], *ast.NamespaceNode) == val)
+//@   at call store#15 assert[the-template-of-this-file;C03] val == tn && typeis(soyfile.Body[i], *ast.TemplateNode) && unbox(soyfile.Body[i], *ast.TemplateNode) == val
 //@   at call store#9 assert[folded-header-param-keeps-its-name;C07] val == param.Name
 //@   at call store#10 assert[folded-header-param-keeps-its-optional-flag;C07] val == param.Optional
 //@   loop 0
 //@     invariant isnil(ns) && forall(k, 0, rangeindex + 1, typeis(soyfile.Body[k], *ast.SoyDocNode)) && -1 <= rangeindex
 //@   loop 1
-//@     invariant 0 <= i && len(soyfile.Body) > 0 && (typeis(soyfile.Body[0], *ast.SoyDocNode) || typeis(soyfile.Body[0], *ast.NamespaceNode)) && ns != nil && registryOK(r)
+//@     invariant 0 <= i && len(soyfile.Body) > 0 && (typeis(soyfile.Body[0], *ast.SoyDocNode) || typeis(soyfile.Body[0], *ast.NamespaceNode)) && ns != nil && registryOK(r) && exists(k, 0, len(soyfile.Body), typeis(soyfile.Body[k], *ast.NamespaceNode) && unbox(soyfile.Body[k], *ast.NamespaceNode) == ns)
 //@     decreases len(soyfile.Body) - i
 //@   loop 2
 //@     invariant len(headerParams) == rangeindex + 1 && rangeindex + 1 <= len(tn.Body.Nodes) && registryOK(r) && sdn != nil
